@@ -1,4 +1,5 @@
 pub mod api;
 pub mod common;
 pub mod forms;
+pub mod siblings;
 pub use api::{Int, SInt, UInt, Val};
